@@ -114,6 +114,14 @@ CLAIMED = {
             "input; one-update lemma (strict alarm implies loose alarm; equal state while the loose one is silent) from an "
             "arbitrary state for the scalar detectors and along bounded histories for ADWIN/LFR/kdq/NNDVI/HDM; ADWIN epsilon-cut "
             "monotonicity in delta as a kernel lemma; warning-threshold half likewise"),
+    "C18": ("DESIGN.md 7/C18",
+            "np.histogram / np.unique(axis=0) are the counting and sort-dedupe models, the kNN stub is a function of the "
+            "de-duplicated union; in the decision-level runs stubbed kernels are functions of the multiset of rows; "
+            "detect_batch=1 excluded by the property",
+            "relational symbolic execution with z3 over every row permutation (within the bound) of symbolic batches: kdq-tree "
+            "leaf counts through the real build/fill, the histograms HDDDM/CDBD hand to their divergence, NNSP union / "
+            "membership / distance; plus decision sequences of HDDDM, KdqTreeBatch and NNDVI on permuted vs original batch "
+            "sequences"),
     "C19": ("DESIGN.md 7/C19",
             "the k-fold reference summary (sklearn) is replaced by arbitrary symbolic statistics; oracle accuracy arbitrary in "
             "[0,1]; deterministic stub classifier; margin signal arbitrary 0/1 through the public hook",
